@@ -1925,6 +1925,11 @@ func patchCode(context *funcContext) { // {{{
 				}
 				distance = d
 				count++
+				if d < 0 {
+					// a backward target has already been patched: its sBx holds
+					// a distance, not a label, and must not be followed
+					break
+				}
 			}
 			if distance == 0 {
 				context.Code.SetOpCode(pc, OP_NOP)
